@@ -47,9 +47,13 @@ CHECKS = {
  "C08": ("proof", "Theorems in coq/Props/C08.v: take_cmd succeeds iff the first live item of the scope is the name (exact "
          "characterisation), the inner OptionParser then runs on [name..end) with the path extended and its value/failure is "
          "the command's, leftovers in the window fail it, an item no consumer of the tree accepts fails the run, inner "
-         "help/version is rendered with the inner info/meta/path and is final outward, deeper alternative wins. Full tree "
-         "conformance is partial: decided by the oracle (misplaced inner options, unknown names, help after each name, "
-         "parent options right of the name) and the differential run." + DIFF,
+         "help/version is rendered with the inner info/meta/path and is final outward, deeper alternative wins. On conventional "
+         "subcommand trees (Model/Conv.v): C08_subcommand_value_tree -- a level with subcommands is a sentence exactly through "
+         "the one whose name the scan stops at, what follows is judged by that subcommand's grammar, its value comes last in the "
+         "enclosing result and the parser returns exactly that; C08_tree_conformance -- the run succeeds IFF the grammar accepts "
+         "(both directions, every specified vector). For tree shapes outside the conventional fragment conformance is decided "
+         "by the oracle (misplaced inner options, unknown names, help after each name, parent options right of the name, the "
+         "subcommand's own OptionParser run alone on the items right of its name) and the differential run." + DIFF,
          "4/C08", "Rocq proof (take_cmd law, scope/ledger corollaries) over a hand-written model + differential correspondence + misplacement oracle"),
  "C10": ("proof", "Theorems in coq/Props/C10.v: C10_never_value -- for EVERY parser, a live item none of the parser's own consumers "
          "accepts (a help/version flag whose names no item uses) makes run_subparser/run_inner unable to yield a value (the "
@@ -174,30 +178,30 @@ CHECKS = {
          "(one OptionParser: parse, completion at revisions 0/1/7/8/9 with and without an application name, html/markdown/"
          "manpage; two rounds must be identical).",
          "4/C04", "Rocq proof (totality of every definition without adjacent by mutual induction, ledger/scope invariants, loop termination) + differential with explicit panic/fuel outcomes + run histories under catch_unwind"),
- "C01": ("proof", "PARTIAL. coq/Model/Conv.v states the declared grammar: `level` (conventional fragment: uniquely named switches/flags/"
+ "C01": ("proof", "coq/Model/Conv.v states the declared grammar: `level` (conventional fragment: uniquely named switches/flags/"
          "required flags/counted/repeated flags/arguments x {required, optional, many, some, fallback, last}, positional suffix, "
          "subcommand trees with aliases), `compile` (the combinator term) and `denote` (one left-to-right attribution scan giving "
-         "every token a role, then arity and value checks; Unspecified exactly for the property's carve-outs and help requests). "
-         "PROVED (coq/Props/C01.v): C01_sentences_accepted_flat / _chain / _tree -- for every flat level, every chain of nested "
-         "subcommands and every WHOLE SUBCOMMAND TREE (any number of subcommands with aliases at every level; decidable "
-         "conditions flat_ok / chain_ok / tree_ok), denote = Accept v implies run_inner = Ok v, for every argv; "
-         "C01_flat_complete -- for flat levels BOTH directions: on every vector the grammar specifies, run_inner = Ok v exactly "
-         "when denote = Accept v; C01_flat_rejected_never_ok -- what the grammar rejects never yields a value; C01_flat_total "
-         "-- every vector yields a value, a document or an error, never a panic outcome or fuel exhaustion. By refinement in "
-         "layers: AbsSim.v (the evaluator of the fragment flags/arguments/positionals/construct!/optional/many/some/count/last/"
-         "fallback depends on the ledger only through its live tokens: simulation with an interpreter over token lists, mutual "
-         "induction over the parser), ConvRefine.v (that interpreter on the compiled level computes what the scan attributes: "
-         "each item pops exactly its own occurrences in order, the positional suffix takes the remaining words, nothing is left), "
-         "ConvChain.v (command step: scope narrowing, deeper levels' tokens are inert), ConvTree.v (the alternative combinator "
-         "over subcommands: exactly the branch whose name stands first on the line succeeds, the others fail without consuming), "
-         "ConvSound.v (the converse: an item read backwards took exactly its occurrences or left one behind; what the scan "
-         "rejects -- unknown name, name without value, stray value, word without a positional -- is a token no field can remove). "
-         "Also proved: a key no item of a whole subcommand tree owns is never swallowed (corollary of C05). NOT proved: the "
-         "Reject half for levels with subcommands beyond unknown names. That is decided per run by conformance of the "
-         "implementation against `denote` (4000 vectors quick: sentences in every spelling/order, near-miss and mutated "
-         "non-sentences, salted vectors; flat_ok/chain_ok/tree_ok are evaluated on every generated level so the evidence says how "
-         "many cases each theorem covers -- all of them in the current generator) and of the evaluator model on Coq's `compile`.",
-         "4/C01", "Rocq proof by refinement (token-list interpreter simulation + scan/attribution equivalence, both directions for flat levels, Accept for subcommand trees) + conformance differential implementation vs denote"),
+         "every token a role, then arity and value checks; Unspecified exactly for the property's carve-outs: help requests, "
+         "ambiguous clusters, dash-words, options of an enclosing level right of a command name). "
+         "PROVED (coq/Props/C01.v), the full statement for the fragment: C01_tree_complete -- for every whole subcommand tree "
+         "(any number of subcommands with aliases at every level; decidable conditions tree_ok and plain_cmds = command names "
+         "non-empty without leading dash) and every argv the grammar specifies, run_inner = Ok v EXACTLY when denote = Accept v; "
+         "C01_tree_rejected_never_ok; the same for flat levels (C01_flat_complete) and the Accept half alone for flat/chain/tree "
+         "(C01_sentences_accepted_*); C01_flat_total -- never a panic outcome or fuel exhaustion (for trees: "
+         "C04_total_without_adjacent). By refinement in layers: AbsSim.v (the evaluator of the fragment depends on the ledger "
+         "only through its live tokens: simulation with an interpreter over token lists, mutual induction over the parser), "
+         "ConvRefine.v (that interpreter on the compiled level computes what the scan attributes), ConvChain.v (command step: "
+         "scope narrowing, deeper levels' tokens are inert), ConvTree.v (the alternative over subcommands), ConvSound.v (the "
+         "converse on a flat level: an item read backwards took exactly its occurrences or left one behind; what the scan "
+         "rejects is a token no field can remove), ConvTreeSound.v (the converse through command levels: fields take whole "
+         "occurrences only, so the first token they leave is a key or the command word the scan stopped at; construct! and the "
+         "alternative read backwards; induction on the tree), TokOs.v (the text recorded for an option token starts with a dash "
+         "or is empty, so it is never taken for a command name). Also proved: a key no item of a whole subcommand tree owns is "
+         "never swallowed (corollary of C05). The theorems speak about the model; the tie: conformance of the implementation "
+         "against `denote` (4000 vectors quick: sentences in every spelling/order, near-miss and mutated non-sentences, salted "
+         "vectors) and of the evaluator model on Coq's `compile`; flat_ok/chain_ok/tree_ok/plain_cmds are evaluated on every "
+         "generated level: every generated vector the grammar specifies (about 3750 of 4000 per run) falls under a theorem.",
+         "4/C01", "Rocq proof by refinement (token-list interpreter simulation + scan/attribution equivalence; both directions for flat levels and whole subcommand trees) + conformance differential implementation vs denote"),
  "C17": ("proof", "PARTIAL by nature: the proc-macro (syn-level Rust) is not modelled. coq/Model/Derive.v states the documented rules "
          "(implicit consumer and shape from the field type, kebab-case naming incl. single-character names, what short/long/env/"
          "argument/positional/fallback/doc comments override, unit-variant and command names, group_help of nested parsers) as a "
